@@ -165,6 +165,15 @@ def body_chains(sel: int) -> bool:
     else:
         p = parse(text)
     sets = ALL_SETS if os.environ.get("VERIF_TIER") == "thorough" else [ALL_SETS[(sel * 7 + k * 9) % len(ALL_SETS)] for k in range(8)]
+    if sel % 2 == 0:
+        # what was asked before does not matter: chains expanded into descriptors, and chains whose returned structure the caller edited
+        for m in tables:
+            if tables[m] and oracle_count(tables, m) <= 300:
+                p.expand_decay_modes(m)
+            r = p.build_decay_chains(m)
+            r[m].clear()
+            r["edited"] = True
+        sets = [[]] + list(sets)
     for mi, m in enumerate(P + ["D*-", "Xi_c0", "Orig3"]):
         if m in ("D*-", "Xi_c0", "Orig3") and m not in tables:
             continue
